@@ -421,6 +421,8 @@ def run(ctx, rep):
     # a request is only answered if the code between receiving and answering it terminates
     from rules import c04_progress
     c04_progress.run(ctx, rep, rid="R-C12-progress")
+    from rules import c04_magnitude
+    c04_magnitude.run(ctx, rep, rid="R-C12-magnitude")
     from rules import c04_recursion
     c04_recursion.run_fanout(ctx, rep, rid="R-C12-fanout")
     c04_recursion.run_depth(ctx, rep, rid="R-C12-depth")
